@@ -23,7 +23,7 @@ ASSUMPTIONS = [
     "tensor order, operand count, and sizes that drive Python loops (rank in unfolding_dot_khatri_rao_memory, order in higher_order_moment) are enumerated; all other sizes and all entries are universally quantified",
     "CP weights are real-valued (conjugation of weights is not part of the formula)",
 ]
-QUANTIFICATION = "forall mode sizes >= 1, ranks, real/complex entries; enumerated: tensor order <= 3 (quick) / 4 (thorough), operand counts <= 3/4, modes, option combinations, tenalg backend"
+QUANTIFICATION = "forall mode sizes >= 1, ranks, real/complex entries; enumerated: tensor order <= 4 (quick) / 5 (thorough), operand counts <= 3/4, modes, option combinations, tenalg backend"
 EXPLANATION = ("Each obligation runs the real tenalg function (through TenalgBackendManager dispatch) on symbolic operands and compares the "
                "closed-form result with the index formula in canonical form; holding under both backends gives core == einsum.")
 
@@ -38,7 +38,7 @@ def obligations(tier):
     from tensorly import tenalg
     import tensorly.tenalg.core_tenalg.mttkrp as core_mttkrp
 
-    maxN = 3 if tier == "quick" else 4
+    maxN = 4 if tier == "quick" else 5
     obs = []
 
     def add(be, fn, tag, setup, call, post, instance, clause="result≡index-formula", **kw):
